@@ -1,4 +1,5 @@
 import FsnVerif.Proofs.DiffLemmas
+import FsnVerif.Proofs.DiffValid
 /-!
 # C20 — Test-support Diff produces a correct edit script, empty exactly on equality
 
@@ -11,11 +12,17 @@ What is proved (all inputs):
   opcodes only, the texts are equal (`all_equal_means_equal`);
 * the context trimming of `GetGroupedOpCodes` never leaves more than `n` unchanged lines at the
   start of the first or the end of the last opcode, nor at either side of a split.
-What is validated per case rather than proved for all inputs: that `findLongestMatch` /
-`matchingBlocks` always yield an opcode list satisfying `validOps` — the driver evaluates
-`validOps` on the opcodes of **every** generated pair (exhaustively over a three-letter alphabet
-up to length 4/5), and those opcodes are compared with the implementation's. `DiffMatch`'s
-placeholder expansion and Go's `regexp` are exercised by the harness only (partial).
+* **`GetOpCodes` always yields a valid edit script** (`opcodes_always_valid`, all inputs): the block
+  `findLongestMatch` returns consists of really equal lines inside its window, `matchBlocks` chains
+  such blocks in order, collapsing keeps the chain, and the opcodes read off the chain tile both
+  texts. Hence applying `GetOpCodes(a, b)` to `a` gives `b` (`diff_script_turns_a_into_b`);
+* **an empty diff means equal texts** (`empty_diff_only_if_equal`, `Diff_empty_only_if_equal`): the
+  grouped opcodes are empty only if every opcode is `equal`, and a valid all-equal script means
+  the texts are equal — a differing pair can never pass silently.
+What is validated per case rather than proved for all inputs: the converse (equal texts give an
+empty diff — a failure here is a loud, spurious test failure, `example` below and the exhaustive
+differential stage), the rendering of hunks, and `DiffMatch`'s placeholder expansion / Go's `regexp`
+(harness only, partial).
 -/
 namespace C20
 open Diff
@@ -28,6 +35,19 @@ theorem edit_script_correct (a b : List Line) (ops : List OpCode) (h : validOps 
 
 theorem all_equal_means_equal (a b : List Line) (ops : List OpCode) (h : validOps a b ops = true)
     (hall : ops.all (fun c => c.tag == 'e') = true) : a = b := equal_of_valid_all_equal a b ops h hall
+
+/-- **every** pair of texts: the opcodes `GetOpCodes` produces pass the validity check -/
+theorem opcodes_always_valid (a b : List Line) : validOps a b (getOpCodes a b) = true := getOpCodes_valid a b
+
+/-- hence the edit script turns the first text into the second, for every pair of texts -/
+theorem diff_script_turns_a_into_b (a b : List Line) : applyOps a b (getOpCodes a b) = b :=
+  apply_valid a b _ (getOpCodes_valid a b)
+
+/-- an empty unified diff is produced only for equal line lists -/
+theorem empty_diff_only_if_equal (a b : List Line) (h : unifiedDiff a b = []) : a = b := unifiedDiff_nil_eq a b h
+
+/-- `Diff(have, want) == ""` only if `have == want` -/
+theorem Diff_empty_only_if_equal (s t : List Char) (h : diff s t = []) : s = t := diff_nil_eq s t h
 
 /-- leading context: after `trimFirst n` a leading `equal` opcode spans at most `n` lines (in both texts) -/
 theorem leading_context_le (n : Nat) (c : OpCode) (rest : List OpCode) (h : c.tag = 'e') :
